@@ -19,6 +19,7 @@
 import base64
 import os
 import posixpath
+import stat
 from typing import Callable, ContextManager, Iterator, Optional, Set, cast
 
 from radicale import pathutils, types
@@ -59,15 +60,20 @@ class StoragePartDiscover(StorageBase):
                          sane_path, e, exc_info=True)
             return
 
-        # Check if the path exists and if it leads to a collection or an item
+        # Check if the path exists and if it leads to a collection or an item.
+        # Only "no such entry" means absent: any other error of stat() must
+        # not be mistaken for a free path (os.path.isdir / isfile do that).
         href: Optional[str]
-        if not os.path.isdir(filesystem_path):
-            if attributes and os.path.isfile(filesystem_path):
-                href = attributes.pop()
-            else:
-                return
-        else:
+        try:
+            st_mode = os.stat(filesystem_path).st_mode
+        except (FileNotFoundError, NotADirectoryError):
+            return
+        if stat.S_ISDIR(st_mode):
             href = None
+        elif attributes and stat.S_ISREG(st_mode):
+            href = attributes.pop()
+        else:
+            return
 
         sane_path = "/".join(attributes)
         collection = self._collection_class(
